@@ -27,7 +27,7 @@ BASE = {
         "open": 7, "add": 8, "close": 5, "drop": 2.5, "reconnect": 3, "ping": 0.7,
         "adv_small": 4, "adv_min": 2, "adv_sweep": 1.5, "adv_phase": 0.7, "adv_long": 0.4,
         "restart": 0.8, "kill": 0.3, "bad": 0.8, "stall": 0.2, "jump": 0.0, "dbfault": 0.0,
-        "persona": 1.5, "bulk": 0.0, "third": 0.5, "resend": 1.0, "split": 0.2, "idle_sub": 0.2, "late_claim": 0.1,
+        "persona": 1.5, "bulk": 0.0, "third": 0.5, "resend": 1.0, "split": 0.2, "idle_sub": 0.2, "late_claim": 0.1, "reuse": 0.15,
     },
 }
 
@@ -44,10 +44,10 @@ PROFILES = {
     "default": profile(),
     "C01": profile(unicode_p=0.3, literal_ids=2, share_ids_p=0.06,
                    w={"add": 14, "open": 10, "drop": 4, "reconnect": 5, "adv_phase": 1.2, "adv_long": 0.8,
-                      "restart": 1.5, "kill": 0.6, "close": 6}),
+                      "restart": 1.5, "kill": 0.6, "close": 6, "reuse": 1.5}),
     "C02": profile(nsides=(2, 3), autoping_p=0.4, names=2, literal_ids=1, napps=(1, 2), share_ids_p=0.06, unicode_p=0.25,
                    w={"add": 14, "open": 10, "connect": 10, "adv_sweep": 3, "restart": 2.0, "kill": 0.6,
-                      "stall": 0.6, "reconnect": 5, "close": 3, "release": 2, "persona": 1, "split": 2.0, "late_claim": 0.7}),
+                      "stall": 0.6, "reconnect": 5, "close": 3, "release": 2, "persona": 1, "split": 2.0, "late_claim": 0.7, "reuse": 1.0}),
     "C03": profile(names=3, w={"claim": 14, "allocate": 4, "release": 8, "restart": 1.5, "reconnect": 4, "late_claim": 2.0,
                                "resend": 3, "close": 5, "adv_long": 0.8, "add": 3}),
     "C04": profile(allow_list_p=0.5, choice_modes=["faithful", "min", "max", "keyed"],
@@ -55,7 +55,8 @@ PROFILES = {
                    w={"allocate": 16, "bulk": 0.9, "claim": 5, "release": 6, "connect": 10, "list": 3,
                       "adv_long": 0.5, "add": 2, "open": 2, "close": 3, "persona": 0.5}),
     "C05": profile(nsides=(3, 4), names=2, literal_ids=1, napps=(1, 2), jumps=[-3600.0, -30.0, -1.0, 1.0, 30.0],
-                   w={"third": 6, "jump": 0.5, "claim": 8, "open": 9, "close": 6, "release": 4, "reconnect": 5, "resend": 4,
+                   usage_p=0.3,
+                   w={"third": 6, "jump": 0.5, "reuse": 1.5, "claim": 8, "open": 9, "close": 6, "release": 4, "reconnect": 5, "resend": 4,
                       "drop": 4, "restart": 1.0, "add": 6}),
     "C06": profile(napps=(2, 3), names=2, literal_ids=2, share_ids_p=0.12, numeric_app_p=0.15,
                    w={"restart": 1.0, "adv_sweep": 1.5, "adv_long": 0.6, "connect_unbound": 1.5}),
@@ -519,6 +520,34 @@ class Gen(object):
         out += self.a_add(y)
         return out
 
+    def a_reuse(self):
+        """a mailbox id lives twice: one side on two connections, the last close comes over one of
+        them, the other lingers; then other sides use the same id again"""
+        r = self.rng
+        app = r.choice(self.apps)
+        lits = [m for m in self.mboxes[app] if isinstance(m, str)]
+        mb = r.choice(lits) if lits else "mbx-x"
+        sides = list(self.sides)
+        r.shuffle(sides)
+        a = sides[0]
+        a1, out = self.a_connect(app=app, side=a)
+        out += self.a_open(a1, mb)
+        a2, o2 = self.a_connect(app=app, side=a)
+        out += o2 + self.a_open(a2, mb)
+        if r.random() < 0.5:
+            out += self.a_add(a1)
+        out += self.a_close(a2)
+        later = sides[1:3] if len(sides) >= 3 else sides[:2]
+        newc = []
+        for sd in later:
+            c, o = self.a_connect(app=app, side=sd)
+            out += o + self.a_open(c, mb)
+            newc.append(c)
+        for c in newc:
+            out += self.a_add(c)
+        out += self.a_add(a1)
+        return out
+
     def a_third(self):
         """a further side arrives at something two sides share"""
         cands = [c for c in self.bound() if c.opened is not None or c.claimed is not None]
@@ -603,6 +632,7 @@ class Gen(object):
             acts.append(("split", w.get("split", 0)))
             acts.append(("idle_sub", w.get("idle_sub", 0)))
             acts.append(("late_claim", w.get("late_claim", 0)))
+            acts.append(("reuse", w.get("reuse", 0)))
             dead = [c for c in self.conns.values() if not c.alive and c.app is not None]
             if dead:
                 acts.append(("reconnect", w["reconnect"]))
@@ -640,6 +670,8 @@ class Gen(object):
             return self.a_idle_sub()
         if a == "late_claim":
             return self.a_late_claim()
+        if a == "reuse":
+            return self.a_reuse()
         if a in ("reconnect", "resend"):
             dead = [c for c in self.conns.values() if not c.alive and c.app is not None]
             return self.a_reconnect(r.choice(dead), resend=(a == "resend"))
